@@ -3,14 +3,14 @@
 # Confirms a seeded change produced in /tmp/mut/<Cxx>: (1) the patch is exactly the tracked diff, (2) the repository's own
 # suite passes with the change, (3) the demonstration fails with the change and (4) passes without it.
 id="$1"; demo="$2"; shift 2
-wt=/tmp/mut/$id; out=/tmp/mut/out/$id
+wt=/tmp/mut/$id; out=${MUTOUT:-/tmp/mut/out}/$id
 cd "$wt" || exit 2
 export CARGO_NET_OFFLINE=true
-git diff > /tmp/mut/out/$id/confirm.diff
-if ! diff -q /tmp/mut/out/$id/confirm.diff "$out/patch.diff" >/dev/null; then echo "NOTE: worktree diff differs from patch.diff (using patch.diff on a clean checkout)"; git stash -q; git apply "$out/patch.diff" || { echo "patch does not apply"; exit 2; }; fi
-mv "$demo" /tmp/mut/out/$id/.demo_aside
+git diff > $out/confirm.diff
+if ! diff -q $out/confirm.diff "$out/patch.diff" >/dev/null; then echo "NOTE: worktree diff differs from patch.diff (using patch.diff on a clean checkout)"; git stash -q; git apply "$out/patch.diff" || { echo "patch does not apply"; exit 2; }; fi
+mv "$demo" $out/.demo_aside
 suite=$(cargo test --workspace --no-fail-fast --offline 2>&1 | grep -E "^test result" | awk '{p+=$4; f+=$6} END {print p" passed, "f" failed"}')
-mv /tmp/mut/out/$id/.demo_aside "$demo"
+mv $out/.demo_aside "$demo"
 echo "suite with change: $suite"
 timeout 900 cargo test --offline "$@" > "$out/confirm_demo_mutant.log" 2>&1; rc1=$?
 echo "demo with change: rc=$rc1 ($(grep -E '^test result' "$out/confirm_demo_mutant.log" | tail -1))"
